@@ -8,6 +8,10 @@ type Mutant struct {
 	Name, File, Find, Replace, Expect string
 }
 
+// MutantMore lists, per "<id>/<mutant name>", further (find, replace-all) pairs
+// applied to the same file, for variants that need several cooperating edits to compile.
+var MutantMore = map[string][][2]string{}
+
 // Mutants lists the self-test variants per property.
 var Mutants = map[string][]Mutant{}
 
